@@ -139,7 +139,7 @@ def decode_equivalence(ctx: Ctx, h, d1, d2):
     site = f"{DEF}::decode-equivalence"
     u16 = lambda x: x.to_bytes(2, "big")  # noqa: E731
     sci_lo = bytes([2, 0x1F]) + u16(500)[::-1] + b"\x00\x00\x80\x3f" + b"\x40\x00\x00\x01" + b"\x3c\x00" + bytes([1, 0])
-    sci_hi = bytes([7, 0x1A]) + u16(2)[::-1] + b"\x00\x00\x80\x3f" + b"\x40\x00\x00\x01" + b"\x3c\x00" + bytes([255, 2]) + bytes([0x50])
+    sci_hi = bytes([7, 0x1A]) + u16(2)[::-1] + b"\x00\x00\x80\x3f" + b"\x40\x00\x00\x01" + b"\x3c\x00" + bytes([255, 10]) + bytes([0x50])
     streams = {
         "SCI (MODE<=4)": ccsds_bytes(sci_lo, apid=100),
         "SCI_HI (MODE>4)": ccsds_bytes(sci_hi, apid=100),
